@@ -4,6 +4,9 @@ From Coq Require Import List Arith Bool.
 From TC.Model Require Cache.
 From TC.Model Require Import CacheConc CacheConcSeq.
 From TC.Proofs Require Import CacheConcBase CacheConcSafe CacheConcTicker CacheConcCap CacheConcRace CacheConcSeq.
+From TC.Lib Require Conc LocksetDiag.
+From TC.Gen Require CacheSkeleton_gen.
+From TC.Proofs Require CacheLockset CacheFootprints.
 Import ListNotations.
 
 Section C08.
@@ -231,6 +234,53 @@ Example C08_ex_sweeper :
   end = true.
 Proof. vm_compute. reflexivity. Qed.
 
+(* ------------------------------------------------------------------------------------------------------------
+   Race freedom re-checked against the GO SOURCE on every run.  Gen/CacheSkeleton_gen.v is regenerated from
+   storage/fifoMapCache.go by translator/lockskel before every Coq build: per method, under which mode of
+   currentPartitionMux / sweepingMux each of the fields partitions, valuePartitionIndex, currentPartitionId,
+   maxPartitions, partitionCapacity, config is read or written (a call into GenericStack / SafeMap is a read of
+   the field holding the pointer; `go f.Sweep()` is another instance of Sweep).  The statements below are about
+   the fine-grained RWMutex semantics of Lib/Conc.v ([Conc.race_free]: for EVERY schedule of any number of
+   instances of the methods, no two of them are ever about to access the same field conflictingly, and no method
+   contains code the translator could not analyse).
+   ------------------------------------------------------------------------------------------------------------ *)
+
+(* the generated counterpart of C08_partial_race_free_core: without Clear and Resize the cache's own fields are
+   race free — as the source says, not as hand-written footprints say *)
+Theorem C08_partial_race_free_core_generated :
+  Conc.race_free (LocksetDiag.without CacheLockset.k1_methods CacheSkeleton_gen.cache_skeleton).
+      (* CacheLockset.k1_methods = ["Clear"; "Resize"] *)
+Proof. exact CacheLockset.cache_core_race_free. Qed.
+
+(* known finding K1, DERIVED from the source: the full skeleton fails the lockset check, and in every offending
+   (writer method, other method, field) triple the unprotected WRITER is Clear or Resize, the other party is one
+   of the methods that read without any lock (CacheLockset.k1_unlocked_readers = Capacity, Contains, Get, Set,
+   Delete, Len, Keys, Values, Resize — never Sweep or getCurrentPartition, which take currentPartitionMux) and the
+   field is one of partitions, valuePartitionIndex, maxPartitions, partitionCapacity (CacheLockset.k1_fields).
+   So K1 is the only lockset failure of the cache; a new one (the RLock dropped in Sweep or in
+   getCurrentPartition's fast path, a new unlocked write) makes this theorem or the previous one stop compiling. *)
+Theorem C08_known_races_are_clear_resize_only :
+  Conc.lockset_check CacheSkeleton_gen.cache_skeleton = false
+  /\ forall w o f, In (w, o, f) (LocksetDiag.offending_all CacheSkeleton_gen.cache_skeleton) ->
+       In w CacheLockset.k1_methods /\ In o CacheLockset.k1_unlocked_readers /\ In f CacheLockset.k1_fields.
+Proof. split; [exact CacheLockset.cache_full_lockset_false|exact CacheLockset.cache_k1_exact]. Qed.
+
+(* the list of offending triples is a complete account: a skeleton without any is race free *)
+Theorem C08_offending_complete (sk : Conc.skeleton) : LocksetDiag.offending_all sk = [] -> Conc.race_free sk.
+Proof. intros H. apply Conc.lockset_sound. now apply LocksetDiag.offending_complete. Qed.
+
+(* the hand-written footprints of Model/CacheConc.v (used by C08_partial_race_free_core and C08_race_refuted) agree with
+   the source at the level of the cache's fields and its two mutexes: every field access a pc declares — in ANY
+   state — occurs in the generated skeleton with the same read/write flag and the same set of held locks; and
+   every field access the translator found in Get/Contains/Set/Delete/Sweep/Clear/getCurrentPartition is declared
+   by some pc with the same locks (a declared write also accounts for a read) *)
+Theorem C08_footprints_match_source :
+  (forall K V (s : @CacheConc.state K V) (p : @CacheConc.pc V) a,
+      In a (CacheFootprints.field_part (footprint s p)) ->
+      CacheFootprints.in_skeleton CacheSkeleton_gen.cache_skeleton a = true)
+  /\ forallb CacheFootprints.covered_by_model CacheFootprints.source_faccs = true.
+Proof. split; [intros K V s p a; exact (CacheFootprints.footprints_in_source s p a)|exact CacheFootprints.source_in_footprints]. Qed.
+
 Print Assumptions C08_partial_no_panic.
 Print Assumptions C08_partial_get_was_set.
 Print Assumptions C08_partial_sweeper_stops.
@@ -241,3 +291,7 @@ Print Assumptions C08_seq_projection_history.
 Print Assumptions C08_duplicate_key_refuted.
 Print Assumptions C08_race_refuted.
 Print Assumptions C08_full_statement_refuted.
+Print Assumptions C08_partial_race_free_core_generated.
+Print Assumptions C08_known_races_are_clear_resize_only.
+Print Assumptions C08_offending_complete.
+Print Assumptions C08_footprints_match_source.
